@@ -51,3 +51,5 @@ def run(ctx):
     R3.r01_10_tree_untouched(ctx, 'R18.8')
     R3.r18_9_process_node_writes(ctx)
     R3.r18_10_reference_owned_node(ctx)
+    from . import shared as S_
+    S_.r01_3_recursion(ctx)
